@@ -27,7 +27,7 @@ use warp_core::{
 
 use crate::fp;
 use crate::rt::{
-    arm_failpoint, arm_token, build_engine, disarm_token, intent_bytes, kind, parent_ref, wl_id,
+    arm_failpoint, arm_token, build_engine, disarm_token, intent_bytes, wl_id,
     Ev, HeadSpec, IntentSpec, PassResult, PolicySpec, Scenario, SubmitClass, SubmitObs,
     TargetSpec, Topology, World, FAILPOINTS, N_KINDS,
 };
@@ -564,6 +564,12 @@ fn phase0(args: &Args, rep: &mut Report) {
         let ea = spec_a.envelope(&topo);
         let eb = spec_b.envelope(&topo);
         let content = (k, bytes.clone(), canon_parents.clone());
+        if case == 0 {
+            rep.sample(json!({
+                "phase": 0, "a": spec_a.to_json(), "b": spec_b.to_json(),
+                "ingress_id_a": verif_core::hex(&ea.ingress_id()), "ingress_id_b": verif_core::hex(&eb.ingress_id()),
+            }));
+        }
         if ea.ingress_id() != eb.ingress_id() {
             rep.violation(
                 "C08:identity:depends-on-more-than-kind-bytes-parents",
@@ -1537,7 +1543,7 @@ pub fn run(args: &Args) -> i32 {
     if let Some(path) = &args.replay {
         return replay(path, rep);
     }
-    let budget = Budget::for_tier(args.tier, 62.0, 900.0);
+    let budget = Budget::for_tier(args.tier, 52.0, 900.0);
     // Cumulative deadlines, all measured from the start of the run.
     let b1 = budget.slice(if args.is_quick() { 0.42 } else { 0.50 });
     let b2 = budget.slice(if args.is_quick() { 0.70 } else { 0.85 });
@@ -1569,7 +1575,7 @@ pub fn run(args: &Args) -> i32 {
         for n in 1..=6usize {
             let perms = factorial(n);
             let stride = if n == 6 && quick { 24 } else { 1 };
-            let chunk = if n >= 5 { 6 } else { perms };
+            let chunk = if n >= 5 { 6 } else if n == 4 { 3 } else { perms };
             let mut lo = 0;
             while lo < perms {
                 shards.push(S1 {
@@ -1583,7 +1589,16 @@ pub fn run(args: &Args) -> i32 {
             }
         }
     }
-    shards.sort_by_key(|s| (s.n, s.lo, s.ci));
+    // n ≤ 3 first (always completed); then round-robin over n = 4, 5, 6 so
+    // that a short budget still samples every size.
+    shards.sort_by_key(|s| {
+        if s.n <= 3 {
+            (0, s.n as u64, s.lo, s.ci)
+        } else {
+            let chunk = if s.n >= 5 { 6 } else { 3 };
+            (1, s.lo / chunk, s.n as u64, s.ci)
+        }
+    });
     let expected: u64 = shards
         .iter()
         .map(|s| (s.hi - s.lo) * 3u64.pow(s.n as u32) / s.stride)
@@ -1676,114 +1691,4 @@ fn replay(path: &std::path::Path, mut rep: Report) -> i32 {
         println!("REPLAY: no divergence reproduced");
         0
     }
-}
-
-#[allow(dead_code)]
-fn unused() {
-    let _ = (kind(0), parent_ref(0));
-}
-
-pub fn bench() {
-    use std::time::Instant;
-    {
-        let t = Instant::now();
-        for _ in 0..200 {
-            let _s = WorldlineState::empty();
-        }
-        println!("WorldlineState::empty {:>8.1} us", t.elapsed().as_secs_f64() * 1e6 / 200.0);
-        let t = Instant::now();
-        for _ in 0..200 {
-            let mut rt = warp_core::WorldlineRuntime::new();
-            rt.register_worldline(wl_id(0), WorldlineState::empty()).unwrap();
-        }
-        println!("rt.register_worldline {:>8.1} us", t.elapsed().as_secs_f64() * 1e6 / 200.0);
-        let st = WorldlineState::empty();
-        let t = Instant::now();
-        for _ in 0..200 {
-            let mut p = warp_core::ProvenanceService::new();
-            p.register_worldline(wl_id(0), &st).unwrap();
-        }
-        println!("prov.register_worldl. {:>8.1} us", t.elapsed().as_secs_f64() * 1e6 / 200.0);
-        let topo = base_topology(&[PolicySpec::AcceptAll]);
-        let envs: Vec<IngressEnvelope> = config_intents(1, &configs()[0], 0, 5).iter().map(|s| s.envelope(&topo)).collect();
-        let mut e = build_engine(1);
-        let t = Instant::now();
-        for _ in 0..50 {
-            let mut s = WorldlineState::empty();
-            let _ = e.commit_with_state(&mut s, &envs);
-        }
-        println!("commit_with_state     {:>8.1} us", t.elapsed().as_secs_f64() * 1e6 / 50.0);
-        let t = Instant::now();
-        for _ in 0..50 {
-            let mut s = WorldlineState::empty();
-            let _ = e.commit_with_state(&mut s, &[]);
-        }
-        println!("commit_with_state []  {:>8.1} us", t.elapsed().as_secs_f64() * 1e6 / 50.0);
-        let t = Instant::now();
-        for _ in 0..200 {
-            std::thread::scope(|s| {
-                s.spawn(|| {});
-            });
-        }
-        println!("thread scope spawn    {:>8.1} us", t.elapsed().as_secs_f64() * 1e6 / 200.0);
-    }
-    let cfgs = configs();
-    let cfg = &cfgs[0];
-    let intents = config_intents(1, cfg, 0, 5);
-    let t = Instant::now();
-    for _ in 0..200 {
-        let _w = World::build(&cfg.topo);
-    }
-    println!("World::build          {:>8.1} us", t.elapsed().as_secs_f64() * 1e6 / 200.0);
-    let t = Instant::now();
-    for _ in 0..200 {
-        let _e = build_engine(1);
-    }
-    println!("build_engine          {:>8.1} us", t.elapsed().as_secs_f64() * 1e6 / 200.0);
-    let mut w = World::build(&cfg.topo);
-    let t = Instant::now();
-    for _ in 0..200 {
-        for i in &intents {
-            let _ = w.submit(i);
-        }
-    }
-    println!("submit (dup mostly)   {:>8.1} us", t.elapsed().as_secs_f64() * 1e6 / 1000.0);
-    let t = Instant::now();
-    for _ in 0..200 {
-        let _ = snap(&w, Level::Light);
-    }
-    println!("snap light            {:>8.1} us", t.elapsed().as_secs_f64() * 1e6 / 200.0);
-    let t = Instant::now();
-    for _ in 0..200 {
-        let _ = snap(&w, Level::Full);
-    }
-    println!("snap full             {:>8.1} us", t.elapsed().as_secs_f64() * 1e6 / 200.0);
-    let t = Instant::now();
-    let mut n = 0;
-    for k in 0..200u64 {
-        let mut w = World::build(&cfg.topo);
-        let ints = config_intents(k, cfg, 0, 5);
-        for i in &ints {
-            let _ = w.submit(i);
-        }
-        let t1 = Instant::now();
-        let _ = w.pass();
-        n += t1.elapsed().as_micros();
-    }
-    println!("pass (5 intents)      {:>8.1} us (whole loop {:.1} us)", n as f64 / 200.0, t.elapsed().as_secs_f64() * 1e6 / 200.0);
-    let scn = Scenario {
-        topo: cfg.topo.clone(),
-        intents: intents.clone(),
-        script: vec![Ev::Submit(0), Ev::Submit(1), Ev::Submit(2), Ev::Submit(3), Ev::Submit(4), Ev::Pass { fail: None }, Ev::Pass { fail: None }],
-    };
-    let t = Instant::now();
-    for _ in 0..200 {
-        let _ = run_script(&scn, &[], Level::Light);
-    }
-    println!("run_script light      {:>8.1} us", t.elapsed().as_secs_f64() * 1e6 / 200.0);
-    let t = Instant::now();
-    for _ in 0..200 {
-        let _ = run_script(&scn, &[], Level::Full);
-    }
-    println!("run_script full       {:>8.1} us", t.elapsed().as_secs_f64() * 1e6 / 200.0);
 }
